@@ -922,6 +922,11 @@ impl SortedWritesTable {
                                         unsafe {
                                             let _was_stale = read_handle.set_stale_shared(occ.get().row);
                                             debug_assert!(!_was_stale);
+                                            // The row staged at `cur_row` is the incoming
+                                            // one; the table has to hold the merged result
+                                            // (as `serial_insert` does), which differs from
+                                            // it whenever the merge is not "take new".
+                                            read_handle.overwrite_row_shared(cur_row, &scratch);
                                         }
                                         occ.get_mut().row = cur_row;
                                         changed = true;
